@@ -234,6 +234,8 @@ func ZZ_C02_Compile() {
 	loopVars := ast.NewVars()
 	loopVars.Set("V", ast.Var{Value: "{{.ITEM}}"})
 	loopVars.Set("R", ast.Var{Ref: ".ITEM"})
+	dynText := "echo {{.ITEM}}" // a dynamic variable of the call whose command names the item
+	loopVars.Set("D", ast.Var{Sh: &dynText})
 	t := &ast.Task{Task: "t", Location: &ast.Location{Taskfile: "/d/f.yml"}, Vars: ast.NewVars(), Env: ast.NewVars(),
 		Cmds: []*ast.Cmd{
 			{Cmd: "first"},
@@ -299,6 +301,8 @@ func ZZ_C02_Compile() {
 			rvs, _ := rv.Value.(string)
 			zz.Assert(tvs == item, "call-vars/loop-item-passed-as-text")
 			zz.Assert(rvs == item, "call-vars/loop-item-passed-as-ref")
+			dv, _ := c.Vars.Get("D")
+			zz.Assert(dv.Sh != nil && *dv.Sh == "echo "+item, "call-vars/loop-item-in-the-command-of-a-dynamic-variable")
 		}
 	}
 	zz.Assert(len(ct.Deps) == 2 && ct.Deps[0].Task == "d-"+x0 && ct.Deps[1].Task == "d-"+x1, "for-expansion/deps")
@@ -770,6 +774,16 @@ func ZZ_C07_MutualOnce() {
 		{Name: "A", Run: mode, Cmds: []zzCmd{probe, {Call: "B"}}},
 		{Name: "B", Run: mode, Cmds: []zzCmd{probe, {Call: "A"}}},
 	}}
+	if zz.Bool("cycle_goes_through_a_third_task") {
+		// A calls C, C calls B, B calls A: the execution that closes the cycle (B reaching A)
+		// has to see that A is blocked through the execution it started inline (C waits for B)
+		g = &zzGraph{Tasks: []zzTask{
+			{Name: "P", Deps: []string{"A", "B"}},
+			{Name: "A", Run: mode, Cmds: []zzCmd{{Call: "C"}}},
+			{Name: "C", Run: mode, Cmds: []zzCmd{probe, {Call: "B"}}},
+			{Name: "B", Run: mode, Cmds: []zzCmd{probe, {Call: "A"}}},
+		}}
+	}
 	tf := g.build(func(string) bool { return false })
 	_, err := zzExec(g, tf, zzRunOpts{}, "P")
 	zz.Assert(err != nil, "cyclic-references-end-with-an-error")
@@ -844,6 +858,9 @@ func ZZ_C07_CallLimit() {
 	at.Watch = zz.Bool("task_has_watch_true")
 	at.Internal = zz.Bool("task_is_internal")
 	at.Run = zzRunModes[zz.Choose("run.A", len(zzRunModes))]
+	// ... nor on the invocation being a --watch session: there the runs are started again and
+	// again, but the calls of one round of runs are bounded like any others
+	e.Watch = zz.Bool("invocation_is_a_watch_session")
 	c := zz.Int("calls_so_far", 0, 2000)
 	*e.taskCallCount["A"] = int32(c)
 	err := e.RunTask(context.Background(), &Call{Task: "A", Indirect: zz.Bool("call_is_indirect")})
@@ -851,6 +868,15 @@ func ZZ_C07_CallLimit() {
 	zz.Assert(int(*e.taskCallCount["A"]) == c+1, "call-count-increases-by-one")
 	// whatever the outcome, the call hands back every concurrency slot it took
 	zz.Assert(len(e.concurrencySemaphore) == 0, "concurrency-slots-all-returned")
+	if zz.Param("acyclic_reading", 0) == 1 {
+		// The other reading of the same step: the counter counts the calls of the task made
+		// so far in this invocation, all of them finished (nothing is in progress in this
+		// state), as in an acyclic Taskfile that calls the task from a loop: the next call
+		// is required work and has to run.
+		zz.Assert(err == nil && zzCount(tr, "F", "A.0") == 1, "a-call-of-a-task-that-is-not-in-progress-runs")
+		zz.Reach("end")
+		return
+	}
 	if c+1 >= MaximumTaskCall {
 		tm, ok := err.(*errors.TaskCalledTooManyTimesError)
 		zz.Assert(ok && tm.Code() == errors.CodeTaskCalledTooManyTimes, "limit-reached-gives-204")
